@@ -209,7 +209,8 @@ class DAGRunConcurrentManager(DAGRunManagerLike):
                     )
 
         else:
-            kwargs = self.ctx.input_kwargs
+            # The caller's dict must stay intact
+            kwargs = dict(self.ctx.input_kwargs)
 
         additional_data = self.dag.graph.nodes[node_id].get(NodeField.additional_data)
 
